@@ -17,6 +17,7 @@ from . import common, engine
 # property -> (engine module, design section)
 ENGINES = {
     "C01": "eng_graph", "C05": "eng_graph", "C11": "eng_graph", "C15": "eng_graph", "C16": "eng_graph",
+    "C17": "eng_calendar",
 }
 
 
@@ -74,6 +75,8 @@ def main(argv=None):
     nviol = 0
     seen_known = set()
     shown = 0
+    mine.sort(key=lambda f: len(f.get("history", [])))
+    kinds = set()
     for f in mine:
         k = known_match(known, f)
         if k:
@@ -82,13 +85,18 @@ def main(argv=None):
                 print("KNOWN-FINDING: property=%s %s" % (prop, k["text"]))
             continue
         nviol += 1
-        if shown < 20:
+        kind = (f["clause"], f.get("kind") or (f["history"][-1]["name"] if f.get("history") else ""))
+        if kind in kinds:
+            continue
+        kinds.add(kind)
+        if shown < 12:
             shown += 1
             case = dict(f)
             path = engine.write_replay(prop, case)
             print("VIOLATION property=%s replay=%s clause=%s %s" % (prop, path, f["clause"], f.get("text", "")))
     if nviol > shown:
-        print("(%d further violations of %s not listed)" % (nviol - shown, prop))
+        print("(%d further violating cases of %s not listed: same clause and call kind, or over the cap)"
+              % (nviol - shown, prop))
     ev = mod.evidence(prop, res)
     engine.write_evidence(prop, args.tier, seed, ev["level"], ev["coverage"], ev["assumptions"],
                           res["wall_s"], nviol)
